@@ -96,10 +96,23 @@ def worker(task: Tuple[Any, ...]) -> Stats:
     return st
 
 
-def judge_history(hist: History, specs: List[Dict[str, Any]], schedules: Sequence[Any]) -> Stats:
+def bundled_worker(chunk: List[Tuple[str, str]]) -> Stats:
+    """The inputs bundled with RP2, per asset sheet (4 exchanges x 2 holders): balances vs the reference replay, every to-date, -n off / on."""
+    from rp2verif import bundled
+
+    st = Stats()
+    data = bundled.load()
+    for fname, asset in chunk:
+        st.inc("bundled_sheets")
+        st.merge(judge_history((), data[fname][asset], [((1970, "fifo"),), ((1970, "hifo"),)], name=f"bundled input {fname}.ods, asset {asset}"))
+    return st
+
+
+def judge_history(hist: History, specs: List[Dict[str, Any]], schedules: Sequence[Any], name: Optional[str] = None) -> Stats:
     from rp2verif.seams import compute as C
 
     st = Stats()
+    hs = name or H.hist_str(hist)
     verdict, _acct, _dip = MA.overdraft_verdict(specs)
     tds = to_dates(specs)
     touched = len({a for s in specs for a, _k, _v in MA.flows(s)})
@@ -111,20 +124,20 @@ def judge_history(hist: History, specs: List[Dict[str, Any]], schedules: Sequenc
                 st.inc("evaluations")
                 st.inc(f"evaluations_depth_{len(hist)}")
                 out = C.run_window(specs, sch, None, td, allow_negative_balances=neg)
-                base = {"history": H.hist_str(hist), "hist": hist, "specs": specs, "schedule": list(sch), "allow_negative": neg,
+                base = {"history": hs, "hist": hist, "specs": specs, "schedule": list(sch), "allow_negative": neg,
                         "to_date": str(td) if td else None}
                 if not out.ok:
                     st.violation(dict(base, signature=f"C07 valid history rejected / {type(out.error).__name__}",
-                                      what=f"{sched_str(sch)}{' -n' if neg else ''} -t {td}: {H.hist_str(hist)} :: {type(out.error).__name__}: {out.error}"))
+                                      what=f"{sched_str(sch)}{' -n' if neg else ''} -t {td}: {hs} :: {type(out.error).__name__}: {out.error}"))
                     continue
                 problems = check_balances(specs, out.computed, td)
                 if touched >= 2:
                     st.inc("distinct_nontrivial")
                 if problems:
                     st.violation(dict(base, signature=f"C07 balances / {problems[0].split(':')[-1].strip().split(' ')[0] if 'account' in problems[0] else problems[0][:30]}",
-                                      what=f"{sched_str(sch)}{' -n' if neg else ''} -t {td}: {H.hist_str(hist)} :: {problems[0]}", problems=problems))
+                                      what=f"{sched_str(sch)}{' -n' if neg else ''} -t {td}: {hs} :: {problems[0]}", problems=problems))
                 elif touched >= 3 and td is None:
-                    st.sample({"history": H.hist_str(hist), "schedule": sched_str(sch), "allow_negative": neg,
+                    st.sample({"history": hs, "schedule": sched_str(sch), "allow_negative": neg,
                                "balances": {f"{b.exchange}/{b.holder}": str(b.final_balance) for b in out.computed.balance_set}}, cap=1)
     return st
 
@@ -237,6 +250,17 @@ def main(tier: str, budget_s: Optional[float] = None) -> int:
     t0 = time.time()
     deadline = t0 + (budget_s or (240 if tier == "quick" else 3000))
     total, info, complete = run_phases(plan(tier), worker, FIRST, SYMBOLS, EXTRA, deadline)
+    from rp2verif import bundled as _B
+
+    bt = _B.sheets()
+    tb = time.time()
+    bres, bdone = common.pmap(bundled_worker, [[x] for x in bt], deadline=max(deadline, time.time() + 60))
+    for r in bres:
+        if r is not None:
+            total.merge(r)
+    complete = complete and bdone == len(bt)
+    info.append({"phase": "inputs bundled with RP2: every asset sheet of the 9 files x fifo / hifo x every to-date x -n off / on", "asset_sheets": len(bt),
+                 "executions": total.get("bundled_sheets"), "wall_s": round(time.time() - tb, 1)})
     hs = report_histories(tier)
     nchunks = max(1, min(len(hs), common.NPROC * 8))
     rres, rdone = common.pmap(report_worker, [hs[i::nchunks] for i in range(nchunks)], deadline=deadline, init=report_init)
